@@ -77,7 +77,7 @@ CLAIMED = {
             "Verdict 'either' (error or the natural result, both accepted) is used for typed nulls leaving the zero value, surplus list elements / lob bytes for fixed-size arrays, float into Decimal, the case-insensitive field-name fallback and annotated structs into a wrapper. Trusts the conversion table and the reflection walk.",
             "DESIGN.md section 5, C17"),
     "C18": (PBT + " over generated multi-goroutine workloads run under the Go race detector (test binary built with -race, GORACE=halt_on_error=1); differential oracle: every operation's result in the concurrent run equals its result when its goroutine's script runs alone on fresh objects and fresh per-workload Go types",
-            "Exploration with the race detector as monitor: per quick run 1200 generated workloads (2-32 goroutines x 1-8 operations over 15 operation kinds sharing three SharedSymbolTables, their Adjust-ed copies, a Catalog, the system table, one fixed local symbol table, a table whose SymbolTableBuilder keeps growing, a token list with spare capacity handed to Writer.Annotations, a document with two lobs above 64 KiB, one struct type, a per-workload fresh struct type and a per-workload annotation-wrapper type decoded from accepted and refused documents) plus every pair of operation kinds with two goroutines each; the concurrent phase runs first on fresh shared objects so lazily built state is built under contention; results must be byte-identical to each script run alone.",
+            "Exploration with the race detector as monitor: per quick run 1000 generated workloads (2-32 goroutines x 1-8 operations over 15 operation kinds sharing three SharedSymbolTables, their Adjust-ed copies, a Catalog, the system table, one fixed local symbol table, a table whose SymbolTableBuilder keeps growing, a token list with spare capacity handed to Writer.Annotations, a document with two lobs above 64 KiB, one struct type, a per-workload fresh struct type and a per-workload annotation-wrapper type decoded from accepted and refused documents) plus every pair of operation kinds with two goroutines each; the concurrent phase runs first on fresh shared objects so lazily built state is built under contention; results must be byte-identical to each script run alone.",
             "Schedules are sampled, not enumerated: the race detector flags conflicting unsynchronised accesses that both occur in a run regardless of timing, but not a synchronised-yet-wrong ordering nor a race on a path no script executes. A race report is attributed to the workload in flight (written to a file before it starts). Trusts the Go race detector.",
             "DESIGN.md section 5, C18"),
     "C19": ("fault enumeration + property-based testing with pgregory.net/rapid: every single split point / every read-fault offset / every failing Write-call index enumerated for a fixed set of documents and call sequences, random plans elsewhere; metamorphic oracle (any delivery plan vs whole buffer) and validity oracles (fault reported, sticky, accepted bytes a prefix)",
